@@ -36,7 +36,7 @@ ASSUMPTIONS = [
 COMPONENTS = {"real": ["dali.device.sequences.*", "dali.device.helpers.check_bad_rsp / DeviceInstanceTypeMapper.autodiscover",
                        "dali.device.general command classes, responses, InstanceEventFilter"],
               "stub": ["bus and control devices (sim/busim.py)", "driver"]}
-PROBES = ["filter-24-bit", "filter-16-bit", "filter-8-bit", "filter-plain-int", "stale-dtr", "resolution-not-multiple-of-8",
+PROBES = ["earlier-calls-in-same-process", "filter-24-bit", "filter-16-bit", "filter-8-bit", "filter-plain-int", "stale-dtr", "resolution-not-multiple-of-8",
           "resolution-over-24", "sensor-changed-between-reads", "scheme-invalid", "scan-collision", "scan-reset-state",
           "scan-disabled-instance", "scan-fault", "answer-dropped", "answer-garbled", "scan-64-devices"]
 
@@ -66,6 +66,10 @@ FILTERS = {"pushbutton": (pushbutton.InstanceEventFilter, 1, 8), "occupancy": (o
            "light": (light.InstanceEventFilter, 4, 8), "f16": (Filter16, 20, 16), "f24": (Filter24, 21, 24)}
 
 
+def _dyn_filter(n):
+    return dg.InstanceEventFilter("UserFilter", {("f%d" % i): 1 << i for i in range(n)})
+
+
 def _bits_of(cls):
     m = 0
     for f in cls:
@@ -89,11 +93,18 @@ def gen_plan(seed, tier="quick"):
         plan["change_at"] = r.choice([None, None, 1, 2, 3, 4])
         plan["new_value"] = r.getrandbits(res_)
     elif kind in ("setfilter", "queryfilter"):
-        fam = r.choice(["pushbutton", "occupancy", "light", "f16", "f16", "f24", "f24", "int"])
+        fam = r.choice(["pushbutton", "occupancy", "light", "f16", "f16", "f24", "f24", "int", "dyn", "dyn"])
         plan["family"] = fam
         if fam == "int":
             plan["filter"] = r.getrandbits(8)
             plan["itype"] = r.choice([1, 3, 4])
+        elif fam == "dyn":
+            # an application-defined filter enum built at run time (functional API),
+            # always under the same name; earlier ones of other sizes may have been used before
+            plan["dyn_n"] = r.choice([1, 3, 5, 8, 9, 12, 16, 17, 20, 24])
+            plan["filter"] = r.getrandbits(plan["dyn_n"])
+            plan["itype"] = 2 if plan["dyn_n"] <= 8 else (20 if plan["dyn_n"] <= 16 else 21)   # unit's filter width to match
+            plan["prelude_dyn"] = [r.choice([1, 5, 8, 9, 16, 17, 24]) for _ in range(r.choice([0, 1, 1, 2]))]
         else:
             cls, itype, width = FILTERS[fam]
             plan["filter"] = r.getrandbits(24) & _bits_of(cls)
@@ -114,7 +125,7 @@ def gen_plan(seed, tier="quick"):
         if devs and r.random() < 0.15:
             devs.append({"short": devs[0]["short"], "status": 0, "instances": [[1, True]]})
         plan["devices"] = devs
-        plan["range"] = r.choice(["default", "default", "int", "tuple", "list"])
+        plan["range"] = r.choice(["default", "default", "int", "tuple", "list", "iter", "gen", "range"])
     return plan
 
 
@@ -186,6 +197,16 @@ def run_plan(plan):
         if fam == "int":
             cls, width = None, 8
             fval = plan["filter"]
+        elif fam == "dyn":
+            for pn in plan.get("prelude_dyn") or []:
+                pcls = _dyn_filter(pn)
+                pdev = busim.Device(short=9, instances=[busim.Instance(itype=20, enabled=True)], name="P")
+                busim.run_sequence(SetEventFilters(DeviceShort(9), InstanceNumber(0), pcls((1 << pn) - 1)),
+                                   busim.Bus([pdev]), cap=40, log=EventLog())
+                probes["earlier-calls-in-same-process"] = 1
+            cls = _dyn_filter(plan["dyn_n"])
+            width = 8 if plan["dyn_n"] <= 8 else (16 if plan["dyn_n"] <= 16 else 24)
+            fval = cls(plan["filter"])
         else:
             cls, _it, width = FILTERS[fam]
             fval = cls(plan["filter"])
@@ -275,8 +296,13 @@ def run_plan(plan):
         elif rng_kind == "tuple":
             gen, scanned = m.autodiscover((5, 50)), set(range(5, 51))
         else:
+            # "an iterable of ints": a list, a one-shot iterator, a generator, a range
             lst = sorted({dd["short"] for dd in plan["devices"]} | {0, 63})
-            gen, scanned = m.autodiscover(lst), set(lst)
+            if rng_kind == "range":
+                lst = list(range(3, 61))
+            arg = {"list": lambda: lst, "iter": lambda: iter(lst), "gen": lambda: (a for a in lst),
+                   "range": lambda: range(3, 61)}[rng_kind]()
+            gen, scanned = m.autodiscover(arg), set(lst)
         sr = busim.run_sequence(gen, bus, answer_faults=faults, cap=64 * 70 + 50, log=log)
         fired = [c for c in sr.commands if c[4]]
         by_addr = {}
